@@ -141,8 +141,42 @@ func extractKill(p *pkgs, f *facts) {
 		}
 		clearedLate = total > 0 && total == late
 	}
-	f.lean = append(f.lean, fmt.Sprintf("def kill : Kill.Params := ⟨%d, %s, %s, %s, %s, %s⟩",
-		grace, leanBool(forceAfter), leanBool(deadline), leanBool(eofGraceful), leanBool(waits), leanBool(clearedLate)))
+	// NewRPCClient: the yamux session is created with `yamux.Client(conn, nil)` (default config: keep-alive on) or with a
+	// config variable that comes from yamux.DefaultConfig() and whose EnableKeepAlive is never assigned
+	keepAlive := false
+	if nc := p.fn("", "NewRPCClient"); nc != nil {
+		cfgVar, found := "", false
+		ast.Inspect(nc.Body, func(n ast.Node) bool {
+			if ce, ok := n.(*ast.CallExpr); ok && exprString(ce.Fun) == "yamux.Client" && len(ce.Args) == 2 {
+				found = true
+				cfgVar = exprString(ce.Args[1])
+			}
+			return true
+		})
+		if found && cfgVar == "nil" {
+			keepAlive = true
+		} else if found {
+			fromDefault, touched := false, false
+			ast.Inspect(nc.Body, func(n ast.Node) bool {
+				if as, ok := n.(*ast.AssignStmt); ok {
+					for i, l := range as.Lhs {
+						if exprString(l) == cfgVar && i < len(as.Rhs) && exprString(as.Rhs[i]) == "yamux.DefaultConfig()" {
+							fromDefault = true
+						}
+						if strings.HasPrefix(exprString(l), cfgVar+".") && strings.Contains(exprString(l), "KeepAlive") {
+							touched = true
+						}
+					}
+				}
+				return true
+			})
+			keepAlive = fromDefault && !touched
+		}
+	} else {
+		f.miss = append(f.miss, "NewRPCClient")
+	}
+	f.lean = append(f.lean, fmt.Sprintf("def kill : Kill.Params := ⟨%d, %s, %s, %s, %s, %s, %s⟩",
+		grace, leanBool(forceAfter), leanBool(deadline), leanBool(eofGraceful), leanBool(waits), leanBool(clearedLate), leanBool(keepAlive)))
 	f.set("kill", map[string]interface{}{"graceMs": grace, "forceAfterGrace": forceAfter, "shutdownRpcHasDeadline": deadline,
-		"quitEofIsGraceful": eofGraceful, "waitsForGoroutines": waits, "runnerClearedAfterWait": clearedLate})
+		"quitEofIsGraceful": eofGraceful, "waitsForGoroutines": waits, "runnerClearedAfterWait": clearedLate, "rpcKeepAlive": keepAlive})
 }
